@@ -222,6 +222,17 @@ func BuildAlphabet(t universe.Affine, level int) *Alphabet {
 			mkOp(geom.NewMultiLineString([]geom.LineString{t.Line(rep(zig, at)), t.Line([]universe.LPt{{0, 0}, {0, 0}, {2, 0}})}).AsGeometry(), "multi"),
 			mkOp(geom.NewMultiPolygon([]geom.Polygon{t.Polygon(rep([]universe.LPt{{0, 0}, {1, 0}, {1, 1}, {0, 1}, {0, 0}}, at+1)), t.Polygon(rep([]universe.LPt{{1, 1}, {2, 1}, {2, 2}, {1, 2}, {1, 1}}, at))}).AsGeometry(), "multi"))
 	}
+	// a repeated vertex at the centre of the lattice: the zero-length segment lies strictly inside
+	// the envelopes of other operands' segments that it is not on
+	vee := []universe.LPt{{0, 0}, {1, 1}, {1, 1}, {2, 0}}
+	cap := []universe.LPt{{0, 2}, {1, 1}, {1, 1}, {1, 1}, {2, 2}}
+	dart := []universe.LPt{{0, 0}, {2, 0}, {1, 1}, {1, 1}, {0, 2}, {0, 0}}
+	a.Paths = append(a.Paths, mkOp(t.Line(vee).AsGeometry(), "path"), mkOp(t.Line(cap).AsGeometry(), "path"))
+	a.Polys = append(a.Polys, mkOp(t.Polygon(dart).AsGeometry(), "poly"))
+	a.Multis = append(a.Multis,
+		mkOp(geom.NewMultiLineString([]geom.LineString{t.Line(vee)}).AsGeometry(), "multi"),
+		mkOp(geom.NewMultiLineString([]geom.LineString{t.Line(cap), t.Line([]universe.LPt{{0, 0}, {0, 1}, {0, 1}})}).AsGeometry(), "multi"),
+		mkOp(geom.NewMultiPolygon([]geom.Polygon{t.Polygon(dart)}).AsGeometry(), "multi"))
 	// empties of every type
 	for _, g := range []geom.Geometry{
 		{}, geom.Point{}.AsGeometry(), geom.LineString{}.AsGeometry(), geom.Polygon{}.AsGeometry(),
@@ -417,6 +428,58 @@ func Lattice4(t universe.Affine) []Operand {
 	for i, s := range universe.Paths(4, 3) {
 		if len(s) == 3 && lexLess(s[0], s[2]) && i%3 == 0 {
 			out = append(out, mkOp(t.Line(s).AsGeometry(), "path4"))
+		}
+	}
+	return out
+}
+
+// ConcurrentPairs: operand pairs in which three edge interiors pass through one lattice point that
+// is a vertex of none of them, with directions whose crossing parameters are not dyadic (so the
+// three pairwise float crossing points differ in the last place and must be snapped to one node).
+// A is a MultiLineString of two segments or a triangle with one edge through the point; B is the
+// third segment or the other two.
+func ConcurrentPairs(level int) [][2]Operand {
+	centres := []universe.LPt{{4, -2}, {1, 1}, {5, 0}, {0, 0}}
+	// extents (a,b): the crossing parameter is a/(a+b); k·fl(a/k) ≠ a only when k = a+b is not of the
+	// form 2^i+2^j (7, 11, 25 here), which is what makes the three float crossing points differ
+	exts := [][2]int{{1, 2}, {14, 11}, {3, 4}, {5, 6}}
+	dirs := []universe.LPt{{1, 0}, {0, 1}, {1, 1}, {1, -1}, {2, 1}, {1, -2}, {5, 9}, {3, -7}, {9, 5}, {7, 3}}
+	if level == 0 {
+		centres = centres[:2]
+		exts = exts[:3]
+		dirs = dirs[:8]
+	}
+	id := universe.Identity
+	seg := func(c, d universe.LPt, e [2]int) []universe.LPt {
+		return []universe.LPt{{X: c.X - e[0]*d.X, Y: c.Y - e[0]*d.Y}, {X: c.X + e[1]*d.X, Y: c.Y + e[1]*d.Y}}
+	}
+	var out [][2]Operand
+	for _, c := range centres {
+		for i := range dirs {
+			for j := i + 1; j < len(dirs); j++ {
+				for k := range dirs {
+					if k == i || k == j {
+						continue
+					}
+					for _, e1 := range exts {
+						for _, e2 := range exts {
+							for _, e3 := range exts {
+								s1, s2, s3 := seg(c, dirs[i], e1), seg(c, dirs[j], e2), seg(c, dirs[k], e3)
+								a := geom.NewMultiLineString([]geom.LineString{id.Line(s1), id.Line(s2)}).AsGeometry()
+								b := id.Line(s3).AsGeometry()
+								out = append(out, [2]Operand{mkOp(a, "multi"), mkOp(b, "seg")})
+								if k > j && e1 == e2 {
+									// triangle with the edge s3 through the centre, apex on the left of it
+									d := dirs[k]
+									apex := universe.LPt{X: c.X - 3*d.Y, Y: c.Y + 3*d.X}
+									tri := id.Polygon([]universe.LPt{s3[0], s3[1], apex, s3[0]}).AsGeometry()
+									out = append(out, [2]Operand{mkOp(tri, "poly"), mkOp(a, "multi")})
+								}
+							}
+						}
+					}
+				}
+			}
 		}
 	}
 	return out
